@@ -10,7 +10,8 @@ From TLV Require Import Base.Ops Model.Prox Proofs.ProxProofs Proofs.ProxProofsH
   Proofs.ProxProofsMore Proofs.ProxProofsMatrix Proofs.ProxProofsRun Proofs.ProxRunTransfer
   Base.RSum Proofs.ProxProofsSvt Proofs.ProxProofsSvtList Proofs.ProxProofsFirm2 Proofs.ProxProofsRunIdem Proofs.ProxProofsRunFirm
   Proofs.ConstraintsProofsUni Proofs.ProxProofsIdem2 Proofs.ProxProofsSvtPerturb Proofs.ProxProofsSmoothNd
-  Model.ProxSvtGap Proofs.ProxProofsSvtGap Proofs.ProxSvtGapTransfer Proofs.ProxProofsTapeCert Proofs.ProxProofsProcrustesGap.
+  Model.ProxSvtGap Proofs.ProxProofsSvtGap Proofs.ProxSvtGapTransfer Proofs.ProxProofsTapeCert Proofs.ProxProofsProcrustesGap
+  Proofs.ProxProofsSvtFirmGap Proofs.ProxProofsProcrustesFeas.
 Import ListNotations.
 Open Scope R_scope.
 
@@ -647,6 +648,70 @@ Theorem C12_procrustes_case_certified : forall (m n k : nat) (U : list (list Q))
 Proof. exact procrustes_case_certified. Qed.
 Print Assumptions C12_procrustes_case_certified.
 
+(* ---- round 8: firm non-expansiveness of svd_thresholding and feasibility / nearest point / idempotence of procrustes WITHOUT the exact contract of
+   the SVD oracle (Proofs/ProxProofsSvtFirmGap.v, Proofs/ProxProofsProcrustesFeas.v).
+   C12_svt_approx_firm: if X1, X2 are g1-, g2-approximate minimisers of t |Z|_nuc + |Z - M1|^2 / 2, resp. ... M2 (the hypotheses are literally the conclusion
+     of C12_svt_gap_sound / C12_svt_case_certified), then for EVERY 0 <= lam <= 1:  lam (1 - lam) |X1 - X2|^2 <= lam <X1 - X2, M1 - M2> + g1 + g2;
+     nothing is assumed about M1, M2, t.  C12_svt_firm_exact_limit: with g1 = g2 = 0 this family IS firm non-expansiveness (lam -> 0), so
+     C12_svt_firmly_nonexpansive is the limit case.
+   C12_svt_firm_case_certified: for two svd_thresholding cases whose Boolean Corr/C12.svt_case_ok holds (evaluated per case by the correspondence),
+     the matrices the executed model returns satisfy the inequality with g_i = svt_gap of case i (each required <= 1e-7 (t sum soft(s) + |M|^2 / 2) per case).
+   C12_procrustes_feasible_case_certified: the Boolean Corr/C12.procrustes_feasible_ok (evaluated per procrustes case on the model's output, exact
+     arithmetic) IS approximate feasibility: columns (n <= m) resp. rows (m < n) orthonormal to within 1e-9 entrywise.
+   C12_procrustes_nearest_case_certified: with procrustes_case_ok as well, the returned matrix is a nearest point of the set up to
+     min(m, n) 1e-9 + 2 procrustes_gap (squared Frobenius distance), over ALL matrices with orthonormal columns (n <= m) or rows (m <= n);
+   C12_procrustes_fixed_case_certified: an input that already lies in the set is moved by at most that much (idempotence up to the certificate).
+   Exact feasibility of U V from an approximate SVD contract alone (no Boolean on the output) is not proved. *)
+Theorem C12_svt_approx_firm : forall (m n : nat) (X1 X2 M1 M2 : nat -> nat -> R) (t nu1 nu2 g1 g2 : R),
+  nuc_le m n X1 nu1 -> nuc_le m n X2 nu2 ->
+  (forall (Z : nat -> nat -> R) (nu : R), nuc_le m n Z nu -> t * nu1 + fro2 m n X1 M1 / 2 <= t * nu + fro2 m n Z M1 / 2 + g1) ->
+  (forall (Z : nat -> nat -> R) (nu : R), nuc_le m n Z nu -> t * nu2 + fro2 m n X2 M2 / 2 <= t * nu + fro2 m n Z M2 / 2 + g2) ->
+  forall lam, 0 <= lam <= 1 ->
+  lam * (1 - lam) * fro2 m n X1 X2 <= lam * frob m n (fun i j => X1 i j - X2 i j) (fun i j => M1 i j - M2 i j) + g1 + g2.
+Proof. exact approx_firm. Qed.
+Print Assumptions C12_svt_approx_firm.
+Theorem C12_svt_firm_exact_limit : forall (m n : nat) (X1 X2 M1 M2 : nat -> nat -> R) (t nu1 nu2 : R),
+  nuc_le m n X1 nu1 -> nuc_le m n X2 nu2 ->
+  (forall Z nu, nuc_le m n Z nu -> t * nu1 + fro2 m n X1 M1 / 2 <= t * nu + fro2 m n Z M1 / 2 + 0) ->
+  (forall Z nu, nuc_le m n Z nu -> t * nu2 + fro2 m n X2 M2 / 2 <= t * nu + fro2 m n Z M2 / 2 + 0) ->
+  fro2 m n X1 X2 <= frob m n (fun i j => X1 i j - X2 i j) (fun i j => M1 i j - M2 i j).
+Proof. exact approx_firm_exact. Qed.
+Print Assumptions C12_svt_firm_exact_limit.
+Theorem C12_svt_firm_case_certified : forall (m n k1 k2 : nat) (U1 : list (list Q)) (s1 : list Q) (V1 M1 : list (list Q))
+    (U2 : list (list Q)) (s2 : list Q) (V2 M2 : list (list Q)) (t : Q),
+  C12.svt_case_ok m n k1 U1 s1 V1 M1 t = true -> C12.svt_case_ok m n k2 U2 s2 V2 M2 t = true ->
+  forall lam : R, 0 <= lam <= 1 ->
+  let e := (1 # 1000000000)%Q in
+  let X1 := mfun (map (map Q2R) (svd_thresholding_with Qops U1 s1 V1 t)) in
+  let X2 := mfun (map (map Q2R) (svd_thresholding_with Qops U2 s2 V2 t)) in
+  lam * (1 - lam) * fro2 m n X1 X2
+  <= lam * frob m n (fun i j => X1 i j - X2 i j) (fun i j => mfun (map (map Q2R) M1) i j - mfun (map (map Q2R) M2) i j)
+     + Q2R (svt_gap Qops e U1 s1 V1 t M1) + Q2R (svt_gap Qops e U2 s2 V2 t M2).
+Proof. exact svt_firm_case_certified. Qed.
+Print Assumptions C12_svt_firm_case_certified.
+Theorem C12_procrustes_feasible_case_certified : forall (m n : nat) (X : list (list Q)),
+  C12.procrustes_feasible_ok m n X = true ->
+  ((n <= m)%nat -> aocols m n (Q2R (1 # 1000000000)) (mfun (map (map Q2R) X))) /\
+  ((m < n)%nat -> aocols n m (Q2R (1 # 1000000000)) (fun j i => mfun (map (map Q2R) X) i j)).
+Proof. exact procrustes_feasible_case_certified. Qed.
+Print Assumptions C12_procrustes_feasible_case_certified.
+Theorem C12_procrustes_nearest_case_certified : forall (m n k : nat) (U : list (list Q)) (s : list Q) (V M : list (list Q)) (d : Q),
+  C12.procrustes_case_ok m n k U s V M d = true -> C12.procrustes_feasible_ok m n (procrustes_with Qops U V) = true ->
+  forall Qm : nat -> nat -> R, (ocols m n Qm /\ (n <= m)%nat) \/ (ocols n m (fun j i => Qm i j) /\ (m <= n)%nat) ->
+  let X := mfun (map (map Q2R) (procrustes_with Qops U V)) in
+  fro2 m n X (mfun (map (map Q2R) M))
+  <= fro2 m n Qm (mfun (map (map Q2R) M)) + INR (Nat.min m n) * Q2R (1 # 1000000000) + 2 * Q2R (procrustes_gap Qops (1 # 1000000000) d U s V M).
+Proof. exact procrustes_nearest_case_certified. Qed.
+Print Assumptions C12_procrustes_nearest_case_certified.
+Theorem C12_procrustes_fixed_case_certified : forall (m n k : nat) (U : list (list Q)) (s : list Q) (V M : list (list Q)) (d : Q),
+  C12.procrustes_case_ok m n k U s V M d = true -> C12.procrustes_feasible_ok m n (procrustes_with Qops U V) = true ->
+  let Mf := mfun (map (map Q2R) M) in
+  (ocols m n Mf /\ (n <= m)%nat) \/ (ocols n m (fun j i => Mf i j) /\ (m <= n)%nat) ->
+  fro2 m n (mfun (map (map Q2R) (procrustes_with Qops U V))) Mf
+  <= INR (Nat.min m n) * Q2R (1 # 1000000000) + 2 * Q2R (procrustes_gap Qops (1 # 1000000000) d U s V M).
+Proof. exact procrustes_fixed_case_certified. Qed.
+Print Assumptions C12_procrustes_fixed_case_certified.
+
 (* ---- round 7: smoothness_prox / proximal_operator(smoothness=t) on a tensor with three or more dimensions, the code as it is
    (Model/ProxDispatch.smooth_nd: NumPy's stacked solve of the shape[0] x shape[0] system against the shape[-2] x shape[-1] slices): the call raises
    exactly when shape[-2] <> shape[0]; otherwise the result is, slice by slice and column by column, the solution of the coded tridiagonal system and
@@ -798,3 +863,15 @@ Example C12_nonvacuous_procrustes_case :
   C12.procrustes_gap_ok [[1; 0]; [0; 1]]%Q [3; 1]%Q [[0; 1]; [1; 0]]%Q [[0; 3]; [1; 0]]%Q = true /\
   C12.procrustes_gap_ok [[1; 0]; [0; 1]]%Q [3; 1]%Q [[0; 1]; [1; 0]]%Q [[0; 3]; [(9 # 10); 0]]%Q = false.
 Proof. repeat split; vm_compute; reflexivity. Qed.
+(* round 8: the Booleans of the new per-case certificates hold on an exact 2 x 2 tape and on a 3 x 2 (tall) one, fail on a non-orthogonal output; two
+   certified cases with the same threshold exist (hypotheses of C12_svt_firm_case_certified) *)
+Example C12_nonvacuous_procrustes_feasible :
+  C12.procrustes_feasible_ok 2 2 (procrustes_with Qops [[1; 0]; [0; 1]]%Q [[0; 1]; [1; 0]]%Q) = true /\
+  C12.procrustes_feasible_ok 3 2 [[1; 0]; [0; 1]; [0; 0]]%Q = true /\
+  C12.procrustes_feasible_ok 2 3 [[1; 0; 0]; [0; 0; 1]]%Q = true /\
+  C12.procrustes_feasible_ok 2 2 [[1; (1 # 100)]; [0; 1]]%Q = false.
+Proof. repeat split; vm_compute; reflexivity. Qed.
+Example C12_nonvacuous_svt_firm_pair :
+  C12.svt_case_ok 2 2 2 [[1; 0]; [0; 1]]%Q [3; 1]%Q [[0; 1]; [1; 0]]%Q [[0; 3]; [1; 0]]%Q 2%Q = true /\
+  C12.svt_case_ok 2 2 2 [[0; 1]; [1; 0]]%Q [5; 2]%Q [[1; 0]; [0; 1]]%Q [[0; 2]; [5; 0]]%Q 2%Q = true.
+Proof. split; vm_compute; reflexivity. Qed.
